@@ -652,7 +652,8 @@ def pur5(ctx, which=("fold", "order")):
     lib = ctx.lib
     # ---- apply_rule_groups: four nested loops
     arg = ctx.fn(lib, "asca::apply_rule_groups")
-    loops = for_loops(arg.hir["body"])
+    tree = _hoist_pushed_helpers(_top_level_inlined(lib, arg))
+    loops = for_loops(tree)
     p_rules, p_phrases = arg.param_names[0], arg.param_names[1]
     L_phr = loop_shape(arg, loops, lambda n: n == ("local", p_phrases))
     if not L_phr:
@@ -745,8 +746,8 @@ def pur5(ctx, which=("fold", "order")):
         r.report("PUR-5|apply_rule_groups|word-extra", fn_loc(arg, L_word[3]), arg.path,
                  "the per-word loop contains additional statements: a word's result may depend on other words")
     # accumulators only with_capacity / push / final move
-    for acc_name in _accumulators(arg):
-        uses = [n for n in hirq.walk(arg.hir["body"]) if n["e"] == "mcall" and expr_name(n["recv"]) == ("local", acc_name)]
+    for acc_name in _accumulators(arg, tree):
+        uses = [n for n in hirq.walk(tree) if n["e"] == "mcall" and expr_name(n["recv"]) == ("local", acc_name)]
         bad = sorted({u["name"] for u in uses if u["name"] not in ("push",)})
         r.inst("apply_rule_groups: accumulator `%s` is push-only" % acc_name, fn_loc(arg), "ok" if not bad else "report")
         if bad:
@@ -789,9 +790,56 @@ def _top_level_inlined(lib, fb):
     return hirq.inline_helpers(lib, fb, keep={"asca::normalise"}, prefixes=("asca::",), max_depth=2, only_if=lambda cb: re.match(r"^asca::\w+$", cb.path) is not None)
 
 
-def _accumulators(b):
+def _hoist_pushed_helpers(tree):
+    """`acc.push(helper(rules, word)?)` with the helper already expanded in place -> the helper's statements followed by
+    `acc.push(<its result>)`, so that a per-word helper extracted from the loop is read like the loop body it was"""
+    def untry_(e):
+        e = hirq.strip(e)
+        while isinstance(e, dict) and e.get("e") == "match" and str(e.get("src", "")).startswith("TryDesugar"):
+            sc = hirq.strip(e["scrut"])
+            e = hirq.strip(sc["args"][0]) if sc.get("e") == "call" and sc.get("args") else sc
+        return e
+
+    def fix(node):
+        if isinstance(node, list):
+            return [fix(v) for v in node]
+        if not isinstance(node, dict):
+            return node
+        node = {k: fix(v) for k, v in node.items()}
+        if node.get("e") == "block" and node.get("stmts"):
+            new = []
+            for st in node["stmts"]:
+                s0 = hirq.strip(st)
+                done = False
+                if isinstance(s0, dict) and s0.get("e") == "mcall" and s0.get("name") == "push" and len(s0.get("args", [])) == 1:
+                    inner = untry_(s0["args"][0])
+                    if isinstance(inner, dict) and inner.get("e") == "block" and inner.get("inl"):
+                        body = hirq.strip(inner.get("tail")) if inner.get("tail") is not None else None
+                        if isinstance(body, dict) and body.get("e") == "block" and body.get("tail") is not None:
+                            res = hirq.strip(body["tail"])
+                            if res.get("e") == "call" and (hirq.strip(res["f"]).get("path") or "").endswith("Result::Ok") and res["args"]:
+                                res = res["args"][0]
+                            # parameter lets that only rename (`let word = word`) are dropped
+                            for pl in inner.get("stmts", []):
+                                i0 = hirq.strip(pl.get("init") or {})
+                                if pl.get("inl_param") and pl["pat"].get("p") == "bind" and i0.get("e") == "path" and i0.get("local") == pl["pat"].get("name"):
+                                    continue
+                                new.append(pl)
+                            new.extend(body.get("stmts", []))
+                            push = dict(s0)
+                            push["args"] = [res]
+                            new.append(push)
+                            done = True
+                if not done:
+                    new.append(st)
+            node["stmts"] = new
+        return node
+    return fix(tree)
+
+
+def _accumulators(b, tree=None):
     out = []
-    for n in hirq.walk(b.hir["body"]):
+    for n in hirq.walk(tree if tree is not None else b.hir["body"]):
         if n["e"] == "let" and n["pat"].get("p") == "bind" and n.get("init") is not None:
             i0 = hirq.strip(n["init"])
             if i0.get("e") == "call" and (hirq.strip(i0["f"]).get("path") or "").endswith(("Vec::with_capacity", "Vec::new")):
